@@ -725,7 +725,7 @@ impl Prop for C12 {
     fn evidence(&self, tier: Tier) -> EvidenceSpec {
         EvidenceSpec {
             level: "exploration",
-            rule: "instances = every closed type-directed term up to the size bound; patterns = the instance with a hole punched at every position with every shift 0..binder depth (both argument orders), and with two holes (distinct cells and the same cell twice) at every pair of the first 9 positions; two holed copies of the instance against each other (a different cell on each side, every ordered pair of the first 8 positions, five shift combinations); every ordered pair of the N smallest terms and the 160/400 smallest terms that are definition groups, hole-free and with a hole punched at each of the first 6 positions of either (shift 0 and shift = depth: scope-escape configurations), and the same cell on both sides (occurs-check configurations), and chained occurs-check configurations (?0 ?1) against (a[?1] b[?0]) for the first 4 x 4 positions of every ordered pair, where the cycle closes only through an earlier solution (judged for termination, acyclicity, scope and context only: the application node is ill-typed by construction); the same under contexts with parameters and definitions (see C18); and one hole written at two and three binder depths ((x : ?H) -> ?H, (x : ?H) -> (y : ?H) -> ?H, ?H -> int -> ?H) against the same shapes over every choice of context variables and base types, under every context of one to three entries drawn from a type parameter, an integer parameter and the definitions t = int, u = bool (43 k problems, both argument orders), together with the hole-free pairs of every context variable / base type and its wrapping in nested groups whose members mention it, judged in both directions against the reference on the closed counterparts. Whenever the real unify returns true: following the recorded solutions must terminate, every solution's free variables must lie below (depth - shift) of every occurrence of its hole, every unresolved hole (also inside a recorded solution) must keep one definite, non-negative home depth, the two terms with solutions filled in must be convertible in the reference, and the definitions context must be as before. `false` is never a violation on a holed pair. evaluations = unification problems; non-trivial = successful unifications confirmed consistent".to_owned(),
+            rule: "instances = every closed type-directed term up to the size bound; patterns = the instance with a hole punched at every position with every shift 0..binder depth (both argument orders), and with two holes (distinct cells and the same cell twice) at every pair of the first 9 positions; two holed copies of the instance against each other (a different cell on each side, every ordered pair of the first 8 positions, five shift combinations); every ordered pair of the N smallest terms and the 160/400 smallest terms that are definition groups, hole-free and with a hole punched at each of the first 6 positions of either (shift 0 and shift = depth: scope-escape configurations), and the same cell on both sides (occurs-check configurations), and chained occurs-check configurations (?0 ?1) against (a[?1] b[?0]) for the first 4 x 4 positions of every ordered pair, where the cycle closes only through an earlier solution (judged for termination, acyclicity, scope and context only: the application node is ill-typed by construction); the same under contexts with parameters and definitions (see C18); and one hole written at two and three binder depths ((x : ?H) -> ?H, (x : ?H) -> (y : ?H) -> ?H, ?H -> int -> ?H) against the same shapes over every choice of context variables and base types, under every context of one to three entries drawn from a type parameter, an integer parameter and the definitions t = int, u = bool (43 k problems, both argument orders), together with the hole-free pairs of every context variable / base type and its wrapping in nested groups whose members mention it, judged in both directions against the reference on the closed counterparts. Whenever the real unify returns true: following the recorded solutions must terminate, every solution's free variables must lie below (depth - shift) of every occurrence of its hole, every unresolved hole (also inside a recorded solution) must keep one definite, non-negative home depth, the two terms with solutions filled in must be convertible in the reference, and the definitions context must be as before. `false` is never a violation on a holed pair. evaluations = unification problems; non-trivial = successful unifications confirmed consistent Two further sweeps: the occurs check through transparent definitions (a context ending in a group in which one definition contains the hole and another may be an alias of it; the hole against the NAME of a definition or a type built from it, both orders, 240 problems; a success must not leave a cell solved by a term that contains that cell), and all ordered pairs of the terms whose operators are stuck on variables (every binary operator on two variables, a variable and a literal, a variable and an operand that still reduces; negation; the same as the condition of a conditional), hole-free (a term against itself and against its reduct must succeed) and with a hole punched at each of the first eight positions.".to_owned(),
             assumptions: vec![
                 "reference conversion (NbE with fuel); Unknown is skipped".to_owned(),
                 "inconsistent successes during which hook H2 counted a hole copy are instances of the known finding F-HOLE-COPY".to_owned(),
